@@ -184,6 +184,14 @@ func (s *dbStore) Load() LatestBlockState {
 	if state := loadStateAtHeight(s.db, head.Height()); state != nil {
 		return *state
 	}
+	// The head moves before the consensus state of that height is saved: after a crash in
+	// between, the latest state is the one below the head (the interrupted commit is finished
+	// at start-up).
+	if head.Height() > 0 {
+		if state := loadStateAtHeight(s.db, head.Height()-1); state != nil {
+			return *state
+		}
+	}
 
 	return LatestBlockState{}
 }
